@@ -32,7 +32,7 @@ RECURSIVE Batt(_, _, _, _)
 Batt(forms, obs, i, s) ==
     IF i > Len(forms) THEN <<"ok", 0>>
     ELSE LET s0 == [s EXCEPT !.fx = <<>>, !.fuel = Fuel]
-             r0 == Ev(forms[i], 1, s0)
+             r0 == IF FreeJump(forms[i], {}) THEN ErrR("compile", s0) ELSE Ev(forms[i], 1, s0)
              r == IF r0.k \in {"brk", "cnt"} THEN ErrR("break-outside-loop", r0.s) ELSE r0
              o == obs[i][1]
              fx == obs[i][2]
